@@ -286,6 +286,8 @@ class CallMixin:
                 h = self.reg.ext_models.get(("havoc", v.sort))
                 if h is not None:
                     h(self, st, v)
+        if c.frame is not None:
+            c.frame(self, st, CallCtx(self, amap, entry, st))
         # exceptional outcomes
         for r in c.raises:
             s2 = st.fork()
